@@ -6,7 +6,7 @@
    the input).  For the code as found the same statements are refuted by the witnesses kept in corpus/C03. *)
 From Coq Require Import List NArith ZArith String Ascii Bool.
 Import ListNotations.
-From VF Require Import common.Json common.Res C03.Model C03.Proofs C03.Corr.
+From VF Require Import common.Json common.Res C03.Model C03.Proofs C03.Corr gen.Gen_C03 C03.Sites.
 Local Open Scope N_scope.
 
 (* ---------- E1: jose.Deserialize + JWEDecrypt.Decrypt, packer pubKey ---------- *)
@@ -281,6 +281,86 @@ Example E9_fixed :
     (Some {| sv_data_ok := true; sv_data_len := 8; sv_sig_ok := true |}) true = GRej 99 /\
   E9_thread None true = GRej 91 /\ E9_thread (Some "t"%string) true = GPass /\
   E9_attachment true false None = GRej 92.
+Proof. repeat split; vm_compute; reflexivity. Qed.
+
+(* ---------- E10: verifiable.ParseCredential raw type switches + base-context validation ---------- *)
+Theorem never_panics_E10 : forall base_mode (typ ctx : option json) s, to_res (E10 Fixed base_mode typ ctx) <> Panic s.
+Proof. intros m t c. exact (safe_no_panic _ (E10_safe m t c)). Qed.
+Print Assumptions never_panics_E10.
+Theorem terminates_E10 : forall base_mode (typ ctx : option json), to_res (E10 Fixed base_mode typ ctx) <> Diverge.
+Proof. intros m t c. exact (safe_no_diverge _ (E10_safe m t c)). Qed.
+Print Assumptions terminates_E10.
+(* "type": [] / "@context": [] under WithBaseContextValidation (vc.Types[0] / vc.Context[0]) *)
+Theorem never_panics_E10_asis_refuted :
+  E10 AsIs true (Some (JArr [])) (Some (JStr BASE_CTX)) = GPanic 100 /\
+  E10 AsIs true (Some (JStr VC_TYPE)) (Some (JArr [])) = GPanic 100 /\
+  E10 AsIs true (Some (JStr VC_TYPE)) (Some (JArr [JObj []])) = GPanic 100.
+Proof. repeat split; vm_compute; reflexivity. Qed.
+Print Assumptions never_panics_E10_asis_refuted.
+(* the repair's guard excludes exactly the inputs on which the code as found panics, and changes nothing else *)
+Theorem E10_guard_exact : forall l want stage,
+  (g_is_panic (base_only AsIs l want stage) = true <-> l = []) /\
+  (l <> [] -> base_only AsIs l want stage = base_only Fixed l want stage).
+Proof. intros l w s. split; [exact (base_only_guard_exact l w s)|exact (base_only_same_elsewhere l w s)]. Qed.
+Print Assumptions E10_guard_exact.
+Example E10_fixed :
+  E10 Fixed true (Some (JArr [])) (Some (JStr BASE_CTX)) = GRej 103 /\
+  E10 Fixed true (Some (JStr VC_TYPE)) (Some (JArr [])) = GRej 104 /\
+  E10 Fixed true (Some (JArr [JStr VC_TYPE])) (Some (JArr [JStr BASE_CTX])) = GPass /\
+  E10 Fixed true (Some (JArr [JStr VC_TYPE; JStr "X"])) (Some (JStr BASE_CTX)) = GRej 103 /\
+  E10 Fixed false (Some (JArr [JStr VC_TYPE; JNum 1])) (Some (JStr BASE_CTX)) = GRej 101 /\
+  E10 Fixed false (Some (JStr VC_TYPE)) None = GRej 102 /\
+  E10 AsIs false (Some (JArr [])) (Some (JArr [])) = GPass.
+Proof. repeat split; vm_compute; reflexivity. Qed.
+
+(* ---------- E11: jwt.Parse (IsCompactJWS, ParseJWS, checkHeaders / checkTypHeader, PayloadToMap) ---------- *)
+Theorem never_panics_E11 : forall (i : e4_in) payload_ok s, to_res (E11 Fixed i payload_ok) <> Panic s.
+Proof. intros i p. exact (safe_no_panic _ (E11_safe i p)). Qed.
+Print Assumptions never_panics_E11.
+Theorem terminates_E11 : forall (i : e4_in) payload_ok, to_res (E11 Fixed i payload_ok) <> Diverge.
+Proof. intros i p. exact (safe_no_diverge _ (E11_safe i p)). Qed.
+Print Assumptions terminates_E11.
+(* strings.Split never returns an empty slice: chunks[1] is only read behind len(chunks) > 1 *)
+Theorem split_never_empty : forall c s, (1 <= List.length (split_on c s EmptyString))%nat.
+Proof. intros c s. exact (split_on_nonempty c s EmptyString). Qed.
+Print Assumptions split_never_empty.
+Definition hdr_typ (typ : json) : e4_in :=
+  {| e4_parts := 3; e4_hdr := Some [("alg", JStr "EdDSA"); ("kid", JStr "did:example:1#k"); ("typ", typ)]%string;
+     e4_alg_known := true |}.
+(* jwt.Parse inherits the kid handling of the verifier (#4) *)
+Theorem never_panics_E11_asis_refuted : E11 AsIs (hdr "did:example:123") true = GPanic 4.
+Proof. vm_compute; reflexivity. Qed.
+Print Assumptions never_panics_E11_asis_refuted.
+Example E11_examples :
+  E11 Fixed (hdr_typ (JStr "JWT")) true = GPass /\ E11 Fixed (hdr_typ (JStr "vc+sd-jwt")) true = GPass /\
+  E11 Fixed (hdr_typ (JStr "a+b")) true = GRej 114 /\ E11 Fixed (hdr_typ (JStr "+")) true = GRej 114 /\
+  E11 Fixed (hdr_typ (JStr "jwt")) true = GRej 115 /\ E11 Fixed (hdr_typ (JNum 1)) true = GRej 113 /\
+  E11 Fixed (hdr "did:example:123") true = GRej 45 /\
+  E11 Fixed {| e4_parts := 3; e4_hdr := Some [("alg", JStr "EdDSA"); ("kid", JStr "did:e:1#k"); ("cty", JStr "JWT")]%string;
+               e4_alg_known := true |} true = GRej 116.
+Proof. repeat split; vm_compute; reflexivity. Qed.
+
+(* ---------- the panic sites of the anchored files (table regenerated from /repo on every run) ---------- *)
+(* every unchecked type assertion, index and slice expression of the anchored files is either a dangerous operation
+   of the model (with its guard) or has a reviewed entry saying why another party's data cannot drive it outside its
+   domain; same file, function, kind, expression and number of copies *)
+Theorem sites_all_reviewed : forallb covered Gen_C03.sites = true.
+Proof. exact all_reviewed. Qed.
+Print Assumptions sites_all_reviewed.
+Theorem reviewed_none_stale : forallb live reviewed = true.
+Proof. exact none_stale. Qed.
+Print Assumptions reviewed_none_stale.
+(* the anchored files contain no explicit call of panic *)
+Theorem no_explicit_panic : existsb is_panic_call Gen_C03.sites = false.
+Proof. exact no_panic_call. Qed.
+Print Assumptions no_explicit_panic.
+Theorem modelled_sites_named : forallb names_model_site reviewed = true.
+Proof. exact modelled_named. Qed.
+Print Assumptions modelled_sites_named.
+Example sites_nontrivial :
+  (100 <=? List.length Gen_C03.sites)%nat = true /\ (30 <=? List.length (filter modelled reviewed))%nat = true /\
+  (30 <=? List.length Gen_C03.files)%nat = true /\
+  covered {| s_file := "x.go"; s_func := "f"; s_kind := KAssert; s_expr := "v.(string)"; s_count := 1 |} = false.
 Proof. repeat split; vm_compute; reflexivity. Qed.
 
 (* ---------- the correspondence check decides what it should ---------- *)
